@@ -171,11 +171,13 @@ def _add_zids(zdir: Path, page: Page) -> None:
             first_line, newline, other_lines = note.body.lstrip().partition(
                 "\n"
             )
-            words = first_line.split(" ")
+            # Lines of a file that uses Windows line endings still end in '\r'.
+            eol = "\r" if first_line.endswith("\r") else ""
+            words = first_line.removesuffix(eol).split(" ")
             if zdt.is_long_date_spec(words[0]):
                 words.pop(0)
             first_line = f"{zid} {' '.join(words)}" if words else zid
-            note.body = first_line + newline + other_lines
+            note.body = first_line + eol + newline + other_lines
             # A note that has no ZID yet cannot have a modify date spec (which
             # lives in front of the ZID) either.
             note.modify_date = note.create_date
